@@ -442,7 +442,8 @@ PROPERTY = {
         explanation='SuperNet._get_single_cost / SuperNetCombiner.get_cost: cost == sum over choice-block invocations of the coefficient-weighted branch costs '
                     '(+ fixed layers with full_cost), between the cheapest and the most expensive selection for every probability vector and for the output of the '
                     'real sampler on ANY raw coefficients (ties included), == the selected branch under one-hot; dict specifications; 1..3 branches',
-        not_decided=['"equals the same metric on the exported network": export_graph is torch.fx surgery (C03)', 'per-invocation shapes come from tensor_meta'],
+        not_decided=['"equals the same metric on the exported network" over ALL SuperNets: discharged (parameters and operations, real convert / export) only on the three enumerated '
+                     'architectures of contracts/whole_supernet.py', 'per-invocation shapes come from tensor_meta (produced by the ShapeProp contract)'],
         assumptions=['convert() / link_combiners_to_branches under an assumed contract (module tree, leaf lists, branch lists)'],
     ),
     'C18': dict(
